@@ -596,6 +596,38 @@ class Methods:
         return r[0][1]
 
     def set_method(self, st, fr, ref, o, name, args, kwargs):
+        res = self._set_method(st, fr, ref, o, name, args, kwargs)
+        if o.parent is not None and name in ("add", "update", "discard", "remove", "clear", "difference_update", "intersection_update"):
+            for s2, _v in res:
+                self._writeback_bucket(s2, ref, o.parent)
+        return res
+
+    def _writeback_bucket(self, st, ref, parent):
+        """the mutated set is the bucket of a symbolic defaultdict(set): store it back into the dict's map"""
+        ex, m = self.ex, self.m
+        did, key = parent
+        cur = st.heap[ref.id]
+        if cur.parent is None:
+            st.heap[ref.id] = SetObj(items=cur.items, sv=cur.sv, frozen=cur.frozen, parent=parent)
+            cur = st.heap[ref.id]
+        d = st.heap[did]
+        t = ex.ty_of(st, ref)
+        if t[1] is None:
+            return
+        elem_ty = t[1]
+        key_ty = ex.ty_of(st, key)
+        bucket = ex.to_term(st, ref, ("set", elem_ty))
+        if d.sym is None:
+            if d.items:
+                raise Unsupported("defaultdict with both concrete and symbolic keys")
+            inner_sort = z3.ArraySort(m.sort(elem_ty), z3.BoolSort())
+            arr = z3.K(m.sort(key_ty), z3.K(m.sort(elem_ty), False))
+        else:
+            key_ty, elem_ty, arr = d.sym
+        arr = z3.Store(arr, ex.to_term(st, key, key_ty), bucket)
+        st.heap[did] = DictObj((), d.default_factory, (key_ty, elem_ty, arr))
+
+    def _set_method(self, st, fr, ref, o, name, args, kwargs):
         ex, m = self.ex, self.m
         if name == "add":
             x = args[0]
